@@ -86,7 +86,7 @@ class Explorer:
         """one bounded query on a fresh solver (an incremental solver that has timed out once can
         hang in push/pop with recursive functions over sequences: observed, so never reused)"""
         self.feas_queries += 1
-        s = z3.Solver()
+        s = z3.SimpleSolver() if os.environ.get('VERIF_QUICK_SIMPLE', '1') == '1' else z3.Solver()
         s.set('timeout', FEAS_TIMEOUT_MS)
         # quantified / lambda facts are left out of the quick queries (z3 does not honour its timeout
         # inside model-based quantifier instantiation): dropping hypotheses only makes the quick
@@ -101,6 +101,8 @@ class Explorer:
             if has_quantifier(e):
                 return z3.unknown
             s.add(recfuns.abstract(e))
+        if os.environ.get('VERIF_DUMP_QUICK'):
+            open(os.environ['VERIF_DUMP_QUICK'], 'w').write(s.to_smt2())
         return s.check()
 
     def feasible(self, cond=None) -> bool:
